@@ -341,6 +341,46 @@ def run_seeds(jobs, names):
     print("seeded regression:", "all as recorded or better" if not bad else "CHECK %s" % sorted(bad))
 
 
+def run_seedsweep(jobs, seeds):
+    """No change applied: all 20 quick checks under other generator seeds, one seed per worker.
+    Any VIOLATION here is a false alarm of the machinery."""
+    import queue
+    import threading
+    with ThreadPoolExecutor(max_workers=jobs) as ex:
+        ws = list(ex.map(setup_worker, range(jobs)))
+    q = queue.Queue()
+    for sd in seeds:
+        q.put(sd)
+    lock = threading.Lock()
+    bad = []
+
+    def loop(w):
+        while True:
+            try:
+                sd = q.get_nowait()
+            except queue.Empty:
+                return
+            env = worker_env(w)
+            env["VERIF_SEED"] = str(sd)
+            res = {}
+            for p in PROPS:
+                rc, o = sh("./check %s" % p, cwd=w + "/verif", env=env, timeout=1800)
+                line = [l for l in o.splitlines() if l.startswith(("VIOLATION", "OK"))]
+                res[p] = "ok" if line and line[-1].startswith("OK") else (line[-1] if line else o.strip()[-200:])
+            notok = {p: v for p, v in res.items() if v != "ok"}
+            with lock:
+                print("seed %d: %d ok %s" % (sd, sum(1 for v in res.values() if v == "ok"), notok or ""), flush=True)
+                if notok:
+                    bad.append(sd)
+
+    ts = [threading.Thread(target=loop, args=(w,)) for w in ws]
+    for t in ts:
+        t.start()
+    for t in ts:
+        t.join()
+    print("seed sweep:", "no alarm on the unchanged tree" if not bad else "ALARMS under seeds %s" % bad)
+
+
 def report():
     import collections
     rs = [json.loads(l) for l in open(os.path.join(OUT, "results.jsonl"))]
@@ -395,5 +435,8 @@ if __name__ == "__main__":
     elif a[0] == "seeds":
         j = int(a[a.index("-j") + 1]) if "-j" in a else 8
         run_seeds(j, [x for x in a[1:] if not x.startswith("-") and not x.isdigit()])
+    elif a[0] == "seedsweep":
+        j = int(a[a.index("-j") + 1]) if "-j" in a else 8
+        run_seedsweep(j, [int(x) for x in a[1:] if x.isdigit() and a[a.index(x) - 1] != "-j"])
     elif a[0] == "report":
         report()
